@@ -134,6 +134,9 @@ class ResInterp(FlowInterp):
             return False
         if call_name(v) == "open":
             return True
+        if isinstance(v.func, ast.Attribute) and v.func.attr == "enter_context" and len(v.args) == 1 and not v.keywords:
+            # contextlib.ExitStack: enter_context(cm) returns what cm.__enter__() returns; for a file, the file itself
+            return self._opens(v.args[0], env, depth)
         if depth > 2:
             return False
         ts = resolve_call(self.prog, env["fi"], env["self_cls"], v)
